@@ -304,15 +304,35 @@ class RefPeer:
                     s["done"] = True
                     s["abandoned"] = self.sim.now
                     return
+                if s.get("hold_last") and i == s["packets"] and not self.fd and not s.get("released"):
+                    s["held"] = ("dt", i)           # the last data packet is held back until release()
+                    return
                 s["sent"] = max(s["sent"], i)       # state first: the reply may be processed inside send()
                 self._send_dt(s, i)
                 if i < first + n - 1:
                     self.sim.schedule(self.sim.now + s["dt_gap"], one(i + 1))
                 elif self.fd and i == s["packets"]:
+                    if s.get("hold_last") and not s.get("released"):
+                        s["held"] = ("eoms", i)     # the end-of-message status is held back until release()
+                        return
                     s["eoms"] = self.sim.now
                     self.send(7, R.FD_CM_PF, s["da"], R.fd_eoms(s["session"], s["size"], s["packets"], s["pgn"]))
             return go
         self.sim.schedule(self.sim.now + s["dt_gap"], one(first))
+
+    def release(self, s):
+        """Send the frame an originator session with hold_last kept back (a frame that was 'in flight' - e.g. crossing the
+        responder's time-out abort on the bus)."""
+        held = s.pop("held", None)
+        s["released"] = True
+        if held is None or self.silent:
+            return
+        if held[0] == "dt":
+            s["sent"] = max(s["sent"], held[1])
+            self._send_dt(s, held[1])
+        else:
+            s["eoms"] = self.sim.now
+            self.send(7, R.FD_CM_PF, s["da"], R.fd_eoms(s["session"], s["size"], s["packets"], s["pgn"]))
 
     def _send_dt(self, s, i):
         if self.fd:
